@@ -158,3 +158,98 @@ func VF_C09_CollectionReverseShuffle(n, kind int) {
 	vf.Assert("size", c.GetSize() == n)
 	vf.Reach("end")
 }
+
+// (g) Catalog: SortValues / SortValuesWithRanker / ReverseValues have the sorter's effect on the associations.
+func VF_C09_CatalogSort(n, mode int) {
+	ks := vf.Ints("k", n)
+	vs := vf.Ints("v", n)
+	for i := 0; i < n; i++ {
+		for j := i + 1; j < n; j++ {
+			vf.Assume(ks[i] != ks[j])
+		}
+	}
+	c := col.Catalog[int, int](nil).Make()
+	for i := range ks {
+		c.SetValue(ks[i], vs[i])
+	}
+	byValueDesc := func(a, b col.AssociationLike[int, int]) age.Rank {
+		return ufRanker(b.GetValue(), a.GetValue())
+	}
+	keysOf := func(as []col.AssociationLike[int, int]) (out, vals []int) {
+		for _, a := range as {
+			out, vals = append(out, a.GetKey()), append(vals, a.GetValue())
+		}
+		return
+	}
+	vf.Budget(40 * listBudget)
+	switch mode {
+	case 0:
+		ref := c.AsArray()
+		age.Sorter[col.AssociationLike[int, int]]().MakeWithRanker(byValueDesc).SortValues(ref)
+		c.SortValuesWithRanker(byValueDesc)
+		gk, gv := keysOf(c.AsArray())
+		rk, rv := keysOf(ref)
+		vf.Assert("catalog-sort-with-ranker-same-as-sorter", vf.And(eqInts(gk, rk), eqInts(gv, rv)))
+		ok := true
+		for i := 0; i+1 < len(gv); i++ {
+			ok = vf.And(ok, vf.Rank1("f", gv[i]) >= vf.Rank1("f", gv[i+1]))
+		}
+		vf.Assert("catalog-sorted-by-the-given-ranker", ok)
+	case 1:
+		c.ReverseValues()
+		gk, gv := keysOf(c.AsArray())
+		vf.Assert("catalog-reverse-exact", vf.And(eqInts(gk, rev(ks)), eqInts(gv, rev(vs))))
+	}
+	for i := range ks {
+		vf.Assert("catalog-lookup-unaffected-by-reordering", c.GetValue(ks[i]) == vs[i])
+	}
+	vf.Assert("size", c.GetSize() == n)
+	vf.BudgetReset()
+	vf.Reach("end")
+}
+
+// (h) longer arrays: a concrete base pattern of n values (descending, saw-tooth, ascending) in which two
+// positions hold arbitrary values; the merge sort's run handling depends on n, not on the small sizes of (a).
+func natRanker(a, b int) age.Rank {
+	if a < b {
+		return age.LesserRank
+	}
+	if a > b {
+		return age.GreaterRank
+	}
+	return age.EqualRank
+}
+
+func VF_C09_LongRuns(n, sel int) {
+	pattern, two := sel%3, sel >= 3 // sel 0..2: one arbitrary value, 3..5: two
+	xs := make([]int, n)
+	for i := range xs {
+		switch pattern {
+		case 0:
+			xs[i] = 2 * (n - i)
+		case 1:
+			xs[i] = 2 * ((n - i) % 4)
+		default:
+			xs[i] = 2 * i
+		}
+	}
+	a, b := vf.Int("a"), vf.Int("b")
+	vf.Assume(vf.And(vf.And(a >= -1, a <= 2*n+1), vf.And(b >= -1, b <= 2*n+1)))
+	if n > 0 {
+		if two {
+			xs[n/3] = a
+		}
+		xs[n-1] = b
+	}
+	orig := clone(xs)
+	vf.Budget(400 * listBudget)
+	age.Sorter[int]().MakeWithRanker(natRanker).SortValues(xs)
+	vf.BudgetReset()
+	ok := true
+	for i := 0; i+1 < n; i++ {
+		ok = vf.And(ok, xs[i] <= xs[i+1])
+	}
+	vf.Assert("long-array-ascending", ok)
+	vf.Assert("long-array-permutation", isPerm(xs, orig))
+	vf.Reach("end")
+}
